@@ -542,7 +542,13 @@ func runConcIsolated(prop string, tr *Trace) *Result {
 	}
 	defer os.RemoveAll(dir)
 	cmd := exec.Command(os.Args[0], "-exec1", "-", "-prop", prop)
-	cmd.Env = append(os.Environ(), "GOMAXPROCS=1", "GODEBUG=asyncpreemptoff=1", "GORACE=log_path="+filepath.Join(dir, "race")+" halt_on_error=0")
+	// one P by default; the determinism self-test also runs the children on
+	// several Ps (the turn protocol lets exactly one task progress either way)
+	procs := os.Getenv("VERIF_CONC_GOMAXPROCS")
+	if procs == "" {
+		procs = "1"
+	}
+	cmd.Env = append(os.Environ(), "GOMAXPROCS="+procs, "GODEBUG=asyncpreemptoff=1", "GORACE=log_path="+filepath.Join(dir, "race")+" halt_on_error=0")
 	cmd.Stdin = bytes.NewReader(tj)
 	var so, se bytes.Buffer
 	cmd.Stdout, cmd.Stderr = &so, &se
